@@ -1174,6 +1174,9 @@ class PolarsModel(data_algebra.data_model.DataModel):
         if isinstance(res, pl.LazyFrame):
             # work around https://github.com/pola-rs/polars/issues/5882#issue-1507040380
             res = res.collect()
+        if len(op.column_deletions) > 0:
+            # delete first: a deleted name may be re-used as the new name of another column
+            res = res.drop(op.column_deletions)
         res = res.rename(op.column_remapping)
         res = res.select(op.columns_produced())
         if self.use_lazy_eval and isinstance(res, pl.DataFrame):
